@@ -349,3 +349,59 @@ def no_string_ordering(chk, c, rule):
                      'child names are compared as strings: positions >= 10 sort before 2..9, so children beyond the ninth are lost '
                      'or misplaced', '%s:%d' % (fi.module.relpath, call.lineno), key='%s|%s|%s' % (rule, fq, norm(call)[:50]))
     chk.ok(rule, 'functions of core/parser/validation scanned: %d' % n, '', key='%s|scan' % rule)
+
+
+def ancestor_lookup(chk, c, rule):
+    """An element that is being created by attribute traversal has no parent yet; the element it is created under is
+    its traversal_parent.  A context getter that walks up through `parent` and falls back to the process-wide defaults
+    must walk up through `traversal_parent` as well, otherwise text assigned below a lazily created element is parsed
+    with the default delimiters instead of the message's.  Decided on the CFG of every encoding_chars getter that calls
+    get_default_encoding_chars: the call is unreachable unless an edge establishing `traversal_parent is None` was taken."""
+    import ast
+    from ..cfg import cfg_of, ENTRY, edge_implies
+    from ..src import own_nodes, norm
+    ix = c.index
+    T_POS = ('self.traversal_parent is None', 'not self.traversal_parent', 'self._traversal_parent is None')
+    T_NEG = ('self.traversal_parent is not None', 'self.traversal_parent', 'self._traversal_parent is not None',
+             'self._traversal_parent')
+    P_POS = ('self.parent is None', 'not self.parent', 'self._parent is None')
+    P_NEG = ('self.parent is not None', 'self.parent', 'self._parent is not None', 'self._parent')
+    n = 0
+    elem = ix.cls('core.Element')
+    seen = set()
+    for ci in ix.subclasses(elem):
+        p = ci.find_property('encoding_chars')
+        if p is None or p[0] is None or p[0].qualname in seen:
+            continue
+        fi = p[0]
+        seen.add(fi.qualname)
+        defaults = [x for x in own_nodes(fi.node) if isinstance(x, ast.Call) and norm(x.func).endswith('get_default_encoding_chars')]
+        # local variables that stand for one of the two links (flow-insensitive: `up = self.parent` ... `up = self.traversal_parent`)
+        alias = {'parent': set(), 'traversal_parent': set()}
+        for x in own_nodes(fi.node):
+            if isinstance(x, ast.Assign) and len(x.targets) == 1 and isinstance(x.targets[0], ast.Name):
+                v = norm(x.value)
+                if v in ('self.parent', 'self._parent'):
+                    alias['parent'].add(x.targets[0].id)
+                if v in ('self.traversal_parent', 'self._traversal_parent'):
+                    alias['traversal_parent'].add(x.targets[0].id)
+        links = ('self.parent', 'self._parent') + tuple(alias['parent'])
+        walks_parent = any(isinstance(x, ast.Attribute) and x.attr == 'encoding_chars' and norm(x.value) in links
+                           for x in own_nodes(fi.node))
+        if not defaults or not walks_parent:
+            continue          # getters with their own storage (Message) are not ancestor look-ups
+        n += 1
+        g = cfg_of(fi)
+        for which, pos, neg in (('parent', P_POS, P_NEG), ('traversal_parent', T_POS, T_NEG)):
+            pos = tuple(pos) + tuple(t % v for v in alias[which] for t in ('%s is None', 'not %s'))
+            neg = tuple(neg) + tuple(t % v for v in alias[which] for t in ('%s is not None', '%s'))
+            def labels_ok(src, dst, lab, g=g, pos=pos, neg=neg):
+                nd = g.nodes[src]
+                return not (nd.kind == 'test' and edge_implies(nd.ast, lab, pos, neg))
+            reach = g.reach(ENTRY, labels_ok=labels_ok)
+            bad = [d for d in defaults if g.node_for(d) in reach]
+            chk.ob(rule, '%s falls back to the defaults only when the element has no %s' % (fi.qualname, which), not bad,
+                   'get_default_encoding_chars() is reachable without `self.%s is None` having been established: an element '
+                   'created lazily under a message with its own delimiters parses assigned text with the process-wide '
+                   'defaults' % which, fi.loc, key='%s|%s|%s' % (rule, fi.qualname, which))
+    chk.floor('ancestor look-ups of the encoding characters', n, 1)
